@@ -230,6 +230,15 @@ def _canon(el):
     return etree.tostring(e, method="c14n")
 
 
+def _ct_entries(data):
+    import zipfile
+
+    from lxml import etree
+
+    root = etree.fromstring(zipfile.ZipFile(io.BytesIO(data)).read("[Content_Types].xml"))
+    return sorted((etree.QName(e).localname, e.get("Extension") or e.get("PartName"), e.get("ContentType")) for e in root)
+
+
 def _fingerprint(prs):
     pkg = prs.part.package
     parts = {}
@@ -703,6 +712,13 @@ def _native_traversal(tier="quick", seed=0):
             got1 = _fingerprint(Presentation(io.BytesIO(b1.getvalue())))
             got2 = _fingerprint(Presentation(io.BytesIO(b2.getvalue())))
             evals += 3
+            # the package-level items are written from the parts alone: the content-types item of a save after reading lists what
+            # the straight save lists, entry for entry (a reader that tolerates surplus entries would hide a difference here)
+            ct3, ct1, ct2 = _ct_entries(b3.getvalue()), _ct_entries(b1.getvalue()), _ct_entries(b2.getvalue())
+            if (ct1 != ct3 or ct2 != ct3) and got1 == want and got2 == want:
+                bad = bad or "%s: [Content_Types].xml of a save after a read-only traversal lists %d / %d entries, a save straight after opening lists %d (first difference: %s)" % (
+                    dname, len(ct1), len(ct2), len(ct3), sorted(set(ct1 + ct2) ^ set(ct3))[:1] or [e_ for e_ in ct2 if ct2.count(e_) > 1][:1])
+                break
             if got1 == want and got2 == want:
                 break
             diff = [k for k in want[0] if got2[0].get(k) != want[0][k]] + [k for k in got2[0] if k not in want[0]]
